@@ -20,4 +20,6 @@ def main():
     from . import verus_run as V
     if hasattr(V, "warmup"):
         V.warmup()
+    ok, tail, wall = V.build_replay()
+    print("setup: native replay crate build %.0fs ok=%s" % (wall, ok))
     return 0
